@@ -307,7 +307,7 @@ def register(R):
         s.uses_lemma("L1 sum point-update (lemmas/L1.lean)", PU_L1)
         s.ensures("only_this_vehicle", PU_FRAME, ("C02", "C15", "C08"))
         s.unfold = {"inv02"}
-        if cname in ("DispatchPoolingTrip", "ServicingPoolingTrip"):
+        if cname == "ServicingPoolingTrip":
             s.assume_only("pooling state update: body out of reach")
         s = R.spec(key(cname, "update"))
         s.opaque = True
@@ -315,7 +315,7 @@ def register(R):
         s.ensures("shape", SHAPE, ("C09",))
         s.ensures("step_ok", STEP_POST, ("C02", "C15", "C08"))
         s.ensures("joins_queue_at_current_time", JOINS_NOW, ("C18",))
-        if cname in ("DispatchPoolingTrip", "ServicingPoolingTrip"):
+        if cname == "ServicingPoolingTrip":
             s.assume_only("pooling state update: body out of reach")
     R.virtual("VehicleState", "_perform_update")
     R.virtual("VehicleState", "update")
